@@ -7,6 +7,9 @@ mod c10;
 mod c11;
 mod c19;
 mod c20;
+mod resp;
+mod c01;
+mod c01dir;
 mod consumer;
 mod c12;
 mod c13;
@@ -65,6 +68,8 @@ fn main() {
         "c07" => c07::run(&out, &tier, seed, shards, replay),
         "c19" => c19::run(&out, &tier, seed, shards, replay),
         "c20" => c20::run(&out, &tier, seed, shards, replay),
+        "c01" => c01::run(&out, &tier, seed, shards, replay, "C01"),
+        "c03" => c01::run(&out, &tier, seed, shards, replay, "C03"),
         "c11" => c11::run(&out, &tier, seed, shards, replay),
         other => {
             eprintln!("unknown command {}", other);
